@@ -11,7 +11,7 @@
     concat|chunks/...|axis|none or chunks|coords
     stackunify|chunks/...    stack|chunks/...|axis|coords        unstack|x|axis|coords      repeat|x|r|axis|coords   copy|x|copy sizes|coords
     index|x|i ; s:start:stop:step:orig ; a:len|coords
-    qr1|a|coords        qr3|q1|r2,c2|coords      qr2|r,n
+    blocks|x|selected block indexes per axis (as chunks)|coords    qr1|a|coords        qr3|q1|r2,c2|coords      qr2|r,n
     reduced|shape|axes|keepdims(0/1)    aslices|lens|start|stop    bshapes|shape/shape/...    tree|k|d|nb     reggrid|c|n
   fn:  same | squeeze:axes | expand:axes | setaxis:axis:len | none
   Answers:  ok c=<chunkss> d=<declared|!> b=<block/block/...>     (block '!' = undefined, shape "-" = 0-d)
@@ -218,6 +218,12 @@ def handle (line : String) : String :=
   | ["index", x, sels, coords] =>
     let ss := if sels == "-" then [] else (sels.splitOn ";").filterMap parseSel
     answer (indexChunkss (parseChunks x) ss) (indexBlock (parseChunks x) ss) (parseCoords coords)
+  | ["blocks", x, sels, coords] =>
+    let xc := parseChunks x
+    let ss := parseChunks sels
+    match blocksChunkss xc ss with
+    | some c => if (arrChunks c).isNone then "error" else answer (some c) (blocksBlock xc ss) (parseCoords coords)
+    | none => "error"
   | ["qr1", a, coords] =>
     match qr1Chunkss (parseChunks a) with
     | none => "error"
